@@ -6,6 +6,8 @@ package main
 // lower switches / if-chains to decision tables from these paths.
 
 import (
+	"go/types"
+
 	"golang.org/x/tools/go/ssa"
 )
 
@@ -386,4 +388,202 @@ func (P *Prog) expandBoolCalls(conds []Fact, depth int) [][]Fact {
 		}
 	}
 	return alts
+}
+
+// expandConds generalises expandBoolCalls: conditions that state the success
+// of an in-package helper - f(args) == v for a boolean f, res<k>(f(args)) for
+// a boolean result, f(args) == nil / res<k>(f(args)) == nil for an error
+// result - are kept and extended by the conditions of each feasible path of
+// the helper that yields that outcome (parameters substituted), recursively.
+// This is what makes a rule indifferent to a block having been extracted
+// into a helper. Helpers with many paths are not expanded.
+func (P *Prog) expandConds(conds []Fact, depth int) [][]Fact {
+	alts := [][]Fact{{}}
+	for _, c := range conds {
+		sub := P.expandOne(c, depth)
+		var next [][]Fact
+		for _, a := range alts {
+			for _, s := range sub {
+				next = append(next, append(append([]Fact{}, a...), s...))
+			}
+		}
+		alts = next
+		if len(alts) > 768 {
+			// give up expanding further conditions
+			for i := range alts {
+				alts[i] = append(alts[i], conds[len(alts[i]):]...)
+			}
+			break
+		}
+	}
+	return alts
+}
+
+func (P *Prog) expandOne(c Fact, depth int) [][]Fact {
+	keep := [][]Fact{{c}}
+	if depth > 2 {
+		return keep
+	}
+	var call *Term
+	idx := 0
+	mode := "" // "bool" | "err"
+	t := c.Pred
+	switch {
+	case t.Op == "call":
+		call, mode = t, "bool"
+	case t.Op == "res" && len(t.Args) == 1 && t.Args[0].Op == "call":
+		call, mode = t.Args[0], "bool"
+		idx = int(mustAtoi(t.S))
+	case t.Op == "binop" && t.S == "==" && len(t.Args) == 2:
+		for i := 0; i < 2; i++ {
+			if t.Args[i].Op != "nil" {
+				continue
+			}
+			o := t.Args[1-i]
+			if o.Op == "call" {
+				call, mode = o, "err"
+			} else if o.Op == "res" && len(o.Args) == 1 && o.Args[0].Op == "call" {
+				call, mode = o.Args[0], "err"
+				idx = int(mustAtoi(o.S))
+			}
+		}
+	}
+	if call == nil {
+		return keep
+	}
+	g := P.calleeOfTerm(call)
+	if g == nil {
+		return keep
+	}
+	res := g.Signature.Results()
+	if idx >= res.Len() {
+		return keep
+	}
+	switch mode {
+	case "bool":
+		if b, ok := res.At(idx).Type().Underlying().(interface{ Kind() types.BasicKind }); !ok || b.Kind() != types.Bool {
+			return keep
+		}
+	case "err":
+		if idx != errIndex(g) || !c.Val {
+			return keep
+		}
+	}
+	m := map[string]*Term{}
+	for i, a := range call.Args {
+		m[itoa(int64(i))] = a
+	}
+	paths := P.allPaths(g)
+	if len(paths) > 48 {
+		return keep
+	}
+	var out [][]Fact
+	for _, gp := range paths {
+		if !gp.feasible() {
+			continue
+		}
+		rs := gp.results()
+		var set []Fact
+		for _, gc := range gp.conds {
+			set = append(set, normFact(gc.Pred.subst(m), gc.Val))
+		}
+		switch mode {
+		case "bool":
+			rt := rs[idx]
+			switch {
+			case rt.Op == "const" && (rt.S == "true") == c.Val:
+			case rt.Op == "const":
+				continue
+			default:
+				set = append(set, normFact(rt.subst(m), c.Val))
+			}
+		case "err":
+			fs := factSet{}
+			for _, gc := range gp.conds {
+				fs.add(gc)
+			}
+			k, deleg := P.classifyErr(rs[idx], fs)
+			if k == exitFailure {
+				continue
+			}
+			if deleg || k == exitMixed {
+				set = append(set, normFact(&Term{Op: "binop", S: "==", Args: []*Term{rs[idx].subst(m), tNil()}}, true))
+			}
+		}
+		for _, e := range P.expandConds(set, depth+1) {
+			out = append(out, append([]Fact{c}, e...))
+		}
+		if len(out) > 256 {
+			return keep
+		}
+	}
+	if len(out) == 0 {
+		return keep
+	}
+	return out
+}
+
+func mustAtoi(s string) int64 {
+	n, _ := termConstInt(T("const", s))
+	return n
+}
+
+// resolveValue inlines the outermost helper call of a value term repeatedly
+// (helpers with a single success result), so that `res<0>(helper(x))` is
+// compared as what the helper computes.
+func (P *Prog) resolveValue(t *Term) *Term {
+	for i := 0; i < 3; i++ {
+		n := P.expandOuter(t)
+		if n == t || n.eq(t) {
+			return t
+		}
+		t = n
+	}
+	return t
+}
+
+// pathCase: one feasible success path of a function with its conditions
+// expanded through helper calls.
+type pathCase struct {
+	p     *Path
+	conds []Fact
+	fs    factSet
+}
+
+// successCases enumerates the success paths of fn (error result not a failure)
+// and expands their conditions (expandConds); contradictory sets are dropped.
+func (P *Prog) successCases(fn *ssa.Function) []pathCase {
+	var out []pathCase
+	ei := errIndex(fn)
+	for _, p := range P.allPaths(fn) {
+		if !p.feasible() {
+			continue
+		}
+		if ei >= 0 {
+			fs := factSet{}
+			for _, c := range p.conds {
+				fs.add(c)
+			}
+			if k, _ := P.classifyErr(p.results()[ei], fs); k == exitFailure {
+				continue
+			}
+		}
+		for _, cs := range P.expandConds(p.conds, 0) {
+			fs := factSet{}
+			ok := true
+			pol := map[string]bool{}
+			for _, c := range cs {
+				k := c.Pred.String()
+				if v, seen := pol[k]; seen && v != c.Val {
+					ok = false
+				}
+				pol[k] = c.Val
+				fs.add(c)
+			}
+			if ok {
+				out = append(out, pathCase{p, cs, fs})
+			}
+		}
+	}
+	return out
 }
